@@ -210,3 +210,168 @@ def r03_10_registered_is_given(ctx, rid='R03.10'):
                     f.key('registered-classes'), f.loc(c), '%s registers classes other than the ones it was given (%s): e.g. ancestors of the '
                     'given classes, so that an unregistered class is considered (and may be instantiated)' % (f.fi.name, shown))
     r.done()
+
+
+def r06_10_dumper_resolver_untouched(ctx, rid='R06.10'):
+    """The dumper quotes by PyYAML's own resolver table (YAML 1.1): that is what makes the output mean the same to any plain
+    parser. Nothing on the dumping side may replace or extend the implicit resolvers, and nothing overrides how anchors are named
+    or which scalars stay plain."""
+    P = ctx.P
+    r = ctx.rule(rid, 'the dumping side leaves PyYAML\'s implicit resolvers, anchor naming and plain-scalar analysis alone '
+                      '(control: the loading side does patch its resolvers, so the scan sees such writes)', floor=2)
+    RES = ('yaml_implicit_resolvers', 'yaml_path_resolvers')
+    ADD = ('add_implicit_resolver', 'add_path_resolver')
+
+    def scan(modname):
+        out = []
+        m = P.modules.get(modname)
+        if m is None:
+            return out
+        for n in ast.walk(m.tree):
+            if isinstance(n, ast.Attribute) and n.attr in RES and isinstance(n.ctx, (ast.Store, ast.Del)):
+                out.append(n)
+            elif isinstance(n, ast.Call) and isinstance(n.func, ast.Attribute) and n.func.attr in ADD:
+                out.append(n)
+            elif isinstance(n, ast.Subscript) and isinstance(n.ctx, (ast.Store, ast.Del)) and isinstance(n.value, ast.Attribute) \
+                    and n.value.attr in RES:
+                out.append(n)
+        return out
+    control = scan('yatiml.loader')
+    r.check(bool(control), 'positive control: the scan finds the loader\'s resolver patch (%d sites)' % len(control),
+            'yatiml.loader:resolver-patch-control', 'yatiml/loader.py', 'the scan for resolver writes finds nothing in yatiml.loader: '
+            'either the YAML 1.2 patches are gone (C09) or this rule no longer sees such writes')
+    for modname in ('yatiml.dumper', 'yatiml.representers'):
+        sites = scan(modname)
+        for s_ in sites:
+            r.fail('%s:resolver-write:%s' % (modname, norm(s_)[:50]), '%s:%d' % (P.modules[modname].path, s_.lineno),
+                   'the dumping side changes its implicit resolvers (%s): which strings are written plain no longer follows the YAML '
+                   '1.1 table, so a plain YAML parser reads some dumped strings (yes, no, on, off ...) as another type' % norm(s_)[:60])
+        r.ok('%s: no write to the implicit / path resolvers' % modname)
+    # overrides of PyYAML's representer / serializer / emitter methods on Dumper: only the known set
+    c = P.cls('yatiml.dumper:Dumper')
+    allowed = {'__init__', 'emit', 'emit_json', 'represent_ordereddict', 'write_json_endline'}
+    for name, m in c.methods.items():
+        if name in allowed or name.startswith('_Dumper__') or (name.startswith('__') and not name.endswith('__')):
+            continue
+        base = None
+        for b in P.mro(c)[1:]:
+            if name in b.methods:
+                base = b
+                break
+        if base is not None and not base.module.name.startswith('yatiml'):
+            r.fail('yatiml.dumper:Dumper:overrides:%s' % name, m.loc(m.node), 'Dumper overrides PyYAML\'s %s.%s: the text written for a '
+                   'value (anchors, styles, what stays plain) no longer follows PyYAML\'s serialiser, e.g. anchor names that differ from '
+                   'one dump of the same object to the next' % (base.name, name))
+    r.ok('Dumper overrides only %s of its PyYAML bases' % sorted(allowed & set(c.methods)))
+    r.done()
+
+
+def r06_11_string_like(ctx, rid='R06.11'):
+    """Which classes are written as a bare string instead of as their parameter mapping: str, UserString, yatiml.String."""
+    P = ctx.P
+    r = ctx.rule(rid, 'is_string_like(t) is issubclass(t, (str, UserString, String)) - nothing else is dumped as str(obj) / loaded '
+                      'from a scalar', floor=1)
+    f = fn(P, 'yatiml.util:is_string_like')
+    p = f.fi.params[0]
+    rets = f.returns()
+    classes: Optional[Set[str]] = None
+    ok = len(rets) == 1 and rets[0].value is not None
+    if ok:
+        v = rets[0].value
+        # issubclass(t, (A, B, C))  or  issubclass(t, A) or issubclass(t, B) ...
+        parts = v.values if isinstance(v, ast.BoolOp) and isinstance(v.op, ast.Or) else [v]
+        classes = set()
+        for c in parts:
+            if isinstance(c, ast.Call) and call_name(c) == 'issubclass' and len(c.args) == 2 and norm(c.args[0]) == p:
+                t = c.args[1]
+                for x in (t.elts if isinstance(t, ast.Tuple) else [t]):
+                    classes.add(norm(x).split('.')[-1])
+            else:
+                ok = False
+    r.check(ok and classes == {'str', 'UserString', 'String'}, 'string-like classes: %s' % sorted(classes or []), f.key('classes'), f.loc(),
+            'is_string_like accepts %s instead of exactly str / UserString / yatiml.String: a registered class that merely implements '
+            'such a protocol (os.PathLike ...) is dumped as str(obj) instead of as its attributes' % sorted(classes or ['?']))
+    r.done()
+
+
+def r12_7_source_independence(ctx, rid='R12.7'):
+    """The loading side never looks at *what kind of source* the document came from, nor at its name: Loader.__init__ hands its
+    arguments to PyYAML unchanged, and nothing reads the stream's / reader's `name`."""
+    P = ctx.P
+    r = ctx.rule(rid, 'the result does not depend on the kind or name of the source: Loader.__init__ forwards its arguments to '
+                      'SafeLoader.__init__ unchanged and the load side never reads a source name', floor=2)
+    f = fn(P, LOADER + '__init__')
+    a = f.node.args
+    sup = [c for c in f.walk() if isinstance(c, ast.Call) and isinstance(c.func, ast.Attribute) and c.func.attr == '__init__'
+           and isinstance(c.func.value, ast.Call) and call_name(c.func.value) == 'super' and f.live(c)]
+    ok = len(sup) == 1
+    shown = ''
+    if ok:
+        c = sup[0]
+        want_pos = [x.arg for x in a.args[1:]]
+        got_pos = [norm(x) for x in c.args]
+        want = want_pos + (['*' + a.vararg.arg] if a.vararg else [])
+        kw = sorted((k.arg or '**', norm(k.value)) for k in c.keywords)
+        want_kw = sorted([(x.arg, x.arg) for x in a.kwonlyargs] + ([('**', a.kwarg.arg)] if a.kwarg else []))
+        ok = got_pos == want and kw == want_kw and not f.cfg.guard_nodes(f.nid(c))
+        shown = norm(c)[:80]
+    r.check(ok, 'Loader.__init__ calls super().__init__ with its own arguments, unconditionally', f.key('forwards-arguments'), f.loc(),
+            'Loader.__init__ does not hand its arguments to SafeLoader.__init__ as they are (%s): the stream is transformed or '
+            'special-cased by kind (e.g. dedenting str sources), so the same document loads differently from a str than from a file'
+            % shown)
+    params = {x.arg for x in a.args[1:]} | ({a.vararg.arg} if a.vararg else set()) | ({a.kwarg.arg} if a.kwarg else set())
+    tests = [b for b in f.cfg.nodes if b.kind == 'test' and params & {x.id for x in ast.walk(b.ast) if isinstance(x, ast.Name)}]
+    r.check(not tests, 'Loader.__init__ does not branch on its arguments', f.key('branch-on-source'), f.loc(tests[0].ast) if tests else f.loc(),
+            'Loader.__init__ branches on %s: sources of different kinds are treated differently' % (norm(tests[0].ast) if tests else ''))
+    n = 0
+    for modname in ('yatiml.loader', 'yatiml.constructors', 'yatiml.recognizer', 'yatiml.util', 'yatiml.introspection', 'yatiml.helpers'):
+        m = P.modules.get(modname)
+        if m is None:
+            continue
+        for x in ast.walk(m.tree):
+            hit = None
+            if isinstance(x, ast.Attribute) and x.attr == 'name' and isinstance(x.ctx, ast.Load):
+                hit = x
+            elif isinstance(x, ast.Call) and call_name(x) == 'getattr' and len(x.args) >= 2 and isinstance(x.args[1], ast.Constant) \
+                    and x.args[1].value == 'name':
+                hit = x
+            if hit is not None:
+                n += 1
+                r.fail('%s:source-name-read:%s' % (modname, norm(hit)[:40]), '%s:%d' % (m.path, hit.lineno),
+                       'the load side reads a `name` (%s): the name of the stream / file the document came from influences the result, '
+                       'so a str source and a file with the same content load differently' % norm(hit)[:60])
+    r.ok('no read of a source name on the load side (%d)' % n)
+    r.done()
+
+
+def r17_10_source_text_untouched(ctx, rid='R17.10'):
+    """Positions in messages are PyYAML's marks into the text it was given: they are positions in the user's document only if
+    that text is the user's text, character for character."""
+    P = ctx.P
+    from ..guards import isinstance_atom
+    r = ctx.rule(rid, 'PyYAML reads the text the caller passed, unmodified: LoadFunction.__call__ hands the source (or the file it opened '
+                      'for a Path) to yaml.load as it is', floor=2)
+    key = 'yatiml.loader:load_function.LoadFunction.__call__'
+    f = fn(P, key)
+    io = f.fi.params[1]
+    for n in f.walk():
+        if isinstance(n, (ast.Assign, ast.AugAssign, ast.AnnAssign)) and any(
+                isinstance(x, ast.Name) and x.id == io and isinstance(x.ctx, ast.Store) for x in ast.walk(n)):
+            r.fail(f.key('source-rebound:%s' % norm(getattr(n, 'value', n))[:40]), f.loc(n), 'the source is replaced by %s before it is parsed: '
+                   'line and column numbers in error messages refer to the modified text, not to the document the user wrote'
+                   % norm(getattr(n, 'value', n))[:60])
+    loads = [c for fi2, c in S.yaml_calls(P, 'load') if fi2.key == key]
+    wvars = {norm(it.optional_vars) for w in f.walk() if isinstance(w, ast.With) for it in w.items if it.optional_vars is not None}
+    for c in loads:
+        a = c.args[0] if c.args else None
+        r.check(a is not None and (norm(a) == io or norm(a) in wvars), 'yaml.load receives %s' % (norm(a) if a is not None else None),
+                f.key('yaml-load-arg'), f.loc(c), 'yaml.load receives %s instead of the source itself / the opened file: marks are '
+                'positions in a different text' % (norm(a) if a is not None else None))
+    if not loads:
+        r.fail(f.key('no-yaml-load'), f.loc(), 'LoadFunction.__call__ does not call yaml.load')
+    for b in f.cfg.nodes:
+        if b.kind == 'test' and io in {x.id for x in ast.walk(b.ast) if isinstance(x, ast.Name)}:
+            ia = isinstance_atom(b.ast)
+            r.check(ia is not None and ia[0] == io and ia[1] <= {'Path'}, 'branch on %s' % norm(b.ast), f.key('branch:%s' % norm(b.ast)[:40]),
+                    f.loc(b.ast), 'the source is special-cased by `%s`' % norm(b.ast))
+    r.done()
